@@ -820,10 +820,10 @@ def make_configs(rng, modules, thorough):
                     for n in chunk:
                         if gen_class(n, t):
                             sx[gen_class(n, t)] = sx.get(gen_class(n, t), 0) + 1
-                    for p in (PLACEMENTS if thorough else [PLACEMENTS[(q + ti + off) % 3]]):
+                    for p, o_ in ([(p_, o) for p_ in PLACEMENTS for o in vs] if thorough else [(PLACEMENTS[(q + ti + off) % 3], vs[(q + off) % 2])]):
                         cfgs.append({"module": m, "files": m.get("files"), "template": t, "formatter": ["gofmt", "noop"][(q + ti) % 2],
                                      "static_param_guards": True, "static_excluded": sx,
-                                     "placement": p, "opts": dict(vs[(q + off) % 2]), "filename": "mocks_test.go" if q % 2 else "mocks.go",
+                                     "placement": p, "opts": dict(o_), "filename": "mocks_test.go" if q % 2 else "mocks.go",
                                      "src_name": m["src"]["name"], "src_path": m["src"]["path"], "pkgnames": pkgnames_of(m),
                                      "stream": "main", "only_names": keep})
             continue
@@ -1076,7 +1076,11 @@ def check(ctx, only=None):
         ctx.violation(rp, nofail=True)
     terms = [case_term(c, r) for c, r in done]
     mark("oracle_classification")
-    bad, errs = coq_mismatches(ctx, MODS, terms, shard=max(6, -(-len(terms) // JOBS))) if terms else ([], [])
+    # balanced shards: the big corpus cases come first in the list, so deal the cases out round robin
+    nsh = max(1, min(JOBS, len(terms) // 6 or 1))
+    perm = [i for k in range(nsh) for i in range(k, len(terms), nsh)]
+    bad_p, errs = coq_mismatches(ctx, MODS, [terms[i] for i in perm], shard=max(6, -(-len(terms) // nsh))) if terms else ([], [])
+    bad = sorted(perm[b] for b in bad_p)
     mark("coq_cases")
     skel_errors = [(c, r) for c, r in expanded if r["stage"] == "done" and not r.get("skel")]
     # generated names: template/var.go's varName against the model gen_name (Gen/Skeleton.v), and its reserved list
